@@ -602,6 +602,35 @@ theorem partition_quadrants_eq (m : MatrixMeta) (hm : m.Inv) (row column : Nat)
     List.cons_append]
   exact ⟨_, _, _, _, rfl, rfl⟩
 
+/-- **`partition_quadrants` in full**: it returns exactly when `row ≤ rows ∧ column ≤ columns`
+    (the documented panic otherwise, raised by `check_axis`), and then the four quadrants have
+    the sizes `row × column`, `row × (columns − column)`, `(rows − row) × column`,
+    `(rows − row) × (columns − column)` — an empty one being `0×0`. -/
+theorem partition_quadrants_iff (m : MatrixMeta) (hm : m.Inv) (row column : Nat) :
+    (row ≤ m.rows ∧ column ≤ m.columns →
+      ∃ a b c d, partitionQuadrants m row column = .ok (a, b, c, d) ∧
+        (a.rows, a.columns) = normSize row column ∧
+        (b.rows, b.columns) = normSize row (m.columns - column) ∧
+        (c.rows, c.columns) = normSize (m.rows - row) column ∧
+        (d.rows, d.columns) = normSize (m.rows - row) (m.columns - column)) ∧
+    (¬ (row ≤ m.rows ∧ column ≤ m.columns) →
+      partitionQuadrants m row column = .panic .explicit) := by
+  constructor
+  · rintro ⟨hr, hc⟩
+    obtain ⟨a, b, c, d, hq, hp⟩ := partition_quadrants_eq m hm row column hr hc
+    have hs := partition_sizes m hm [row] [column] [a, b, c, d] hp
+    simp only [List.map_cons, List.map_nil, diffs, List.cons_append, List.nil_append,
+      List.flatMap_cons, List.flatMap_nil, List.append_nil, List.cons.injEq, and_true] at hs
+    exact ⟨a, b, c, d, hq, by simpa using hs.1, by simpa using hs.2.1, by simpa using hs.2.2.1,
+      by simpa using hs.2.2.2⟩
+  · intro hn
+    have hspec := partition_eq_spec m hm [row] [column]
+    simp only [partitionQuadrants, hspec, partitionSpec, axisChecked, List.all_nil, Bool.and_true]
+    by_cases hr : row ≤ m.rows
+    · have hc : ¬ column ≤ m.columns := fun hc => hn ⟨hr, hc⟩
+      simp [hr, hc]
+    · simp [hr]
+
 /-- Non-vacuity: the 2×2 quadrants of a 3×3 matrix split after row 1 and column 2. -/
 example : partition ⟨9, 3, 3⟩ [1] [2] = .ok
     [⟨[[0, 1]], 1, 2⟩, ⟨[[2]], 1, 1⟩, ⟨[[3, 4], [6, 7]], 2, 2⟩, ⟨[[5], [8]], 2, 1⟩] := by decide
